@@ -54,23 +54,22 @@ def compWalk : Nat → CS → Option ORef → CS × Option ORef × Bool
       else if argumentIsOption arg then
         let (_, optname, islong) := stripOptionPrefix arg
         let (optname, _, argument) := splitOption optname islong
-        if argument.isSome then compWalk fuel s opt
-        else
-          let (o, canarg) : Option ORef × Bool :=
-            if islong then (s.P.lookupLong s.cmd optname, true)
-            else compShortWalk s optname.length (optname.length + 1) optname 0 none
-          match o with
-          | none =>
-            if s.P.opts.ignoreUnknown then compWalk fuel s.passThrough opt
-            else if s.P.opts.passAfterNonOption then (s.skipPositional (rest.length - 1), none, false)
-            else compWalk fuel s opt
-          | some r =>
-            let op := s.P.opt r
-            if op.ty.canArgument && !op.optionalArg && canarg then
-              match rest with
-              | _ :: rest'@(_ :: _) => compWalk fuel { s with args := rest' } opt
-              | _ => compWalk fuel s (some r)
-            else compWalk fuel s opt
+        let (o, canarg) : Option ORef × Bool :=
+          if islong then (s.P.lookupLong s.cmd optname, true)
+          else compShortWalk s optname.length (optname.length + 1) optname 0 none
+        match o with
+        | none =>
+          if s.P.opts.ignoreUnknown then compWalk fuel s.passThrough opt
+          else if argument.isSome then compWalk fuel s opt
+          else if s.P.opts.passAfterNonOption then (s.skipPositional (rest.length - 1), none, false)
+          else compWalk fuel s opt
+        | some r =>
+          let op := s.P.opt r
+          if argument.isNone && op.ty.canArgument && !op.optionalArg && canarg then
+            match rest with
+            | _ :: rest'@(_ :: _) => compWalk fuel { s with args := rest' } opt
+            | _ => compWalk fuel s (some r)
+          else compWalk fuel s opt
       else if s.P.opts.passAfterNonOption && (s.P.lookupCmd s.cmd arg).isNone then
         (s.skipPositional rest.length, none, true)
       else
